@@ -9,14 +9,6 @@ Open Scope Z_scope.
 Definition nil_in_range (pd : pend) : Prop :=
   forall j, nth_error (pd_txs pd) j = Some None -> (j < length (pd_sh pd))%nat.
 
-(** every group the pool can return for one of the block's short hashes fits
-    into the block's transaction slice at that position *)
-Definition fits_at (p : pool) (shs : list N) (len : nat) : Prop :=
-  forall i k e, nth_error shs i = Some k -> pool_get k p = Some e ->
-                (i + length (members e) <= len)%nat.
-
-Definition pd_fits (p : pool) (pd : pend) : Prop := fits_at p (pd_sh pd) (length (pd_txs pd)).
-
 Lemma put_members_not_fatal : forall ms txs i, put_members txs i ms <> Fatal.
 Proof.
   induction ms as [|m ms IH]; intros txs i; simpl; [discriminate|].
@@ -28,6 +20,7 @@ Proof.
   induction nd as [|[index h] nd IH]; intros txs ok; simpl; [discriminate|].
   destruct (nth_error txs index) as [[t|]|]; [apply IH| |discriminate].
   destruct (pool_get h p) as [e|]; [|apply IH].
+  destruct (length txs <? index + length (members e))%nat; [apply IH|].
   destruct (set_nth txs index (Some (px_id e))) as [t1|]; [|discriminate].
   pose proof (put_members_not_fatal (members e) t1 index) as H.
   destruct (put_members t1 index (members e)); [apply IH|discriminate|congruence].
@@ -55,44 +48,30 @@ Proof.
   - intros H; inversion H; subst. repeat split; auto. discriminate.
   - rewrite Es. destruct (need_from 0 (pd_txs pd) (pd_sh pd)) as [nd| |] eqn:En; try discriminate.
     apply need_from_ok_inv in En as [A F].
-    destruct (fill_res p nd (pd_txs pd) true 0%nat (pd_sh pd) F) as [[t' [ok' [E [L M]]]]|P].
-    + rewrite E. destruct ok'; intros H; inversion H; subst; simpl; repeat split; auto; try discriminate.
-      intros _ j Hj. simpl in Hj. specialize (A j (M j Hj)). simpl. lia.
-    + rewrite P. discriminate.
+    destruct (fill_res p nd (pd_txs pd) true 0%nat (pd_sh pd) F) as [t' [ok' [E [L M]]]].
+    rewrite E. destruct ok'; intros H; inversion H; subst; simpl; repeat split; auto; try discriminate.
+    intros _ j Hj. simpl in Hj. specialize (A j (M j Hj)). simpl. lia.
 Qed.
 
-(** on a block of the pending list the only possible panic is the group overrun *)
-Lemma build_panic_group : forall p pd w,
-  nil_in_range pd -> build p pd = Panic w -> w = W_GROUP.
+(** a block whose nil slots all have a short hash is built without a panic *)
+Lemma build_ok : forall p pd,
+  nil_in_range pd -> exists pd' b e, build p pd = Ok (pd', b, e).
 Proof.
-  intros p pd w R. unfold build. destruct (pd_sh pd) eqn:Es; [discriminate|]. rewrite <- Es.
+  intros p pd R. unfold build. destruct (pd_sh pd) eqn:Es; [eauto|]. rewrite <- Es.
   destruct (need_from_ok (pd_txs pd) 0 (pd_sh pd)) as [nd [En F]].
   { intros j Hj. simpl. apply R. exact Hj. }
   rewrite En.
-  destruct (fill_res p nd (pd_txs pd) true 0%nat (pd_sh pd) F) as [[t' [ok' [E _]]]|P].
-  - rewrite E. destruct ok'; discriminate.
-  - rewrite P. intros H; inversion H; reflexivity.
-Qed.
-
-Lemma build_fits_ok : forall p pd,
-  nil_in_range pd -> pd_fits p pd -> exists pd' b e, build p pd = Ok (pd', b, e).
-Proof.
-  intros p pd R Fit. unfold build. destruct (pd_sh pd) eqn:Es; [eauto|]. rewrite <- Es.
-  destruct (need_from_ok (pd_txs pd) 0 (pd_sh pd)) as [nd [En F]].
-  { intros j Hj. simpl. apply R. exact Hj. }
-  rewrite En.
-  destruct (fill_ok p nd (pd_txs pd) true 0%nat (pd_sh pd) F Fit) as [t' [ok' [E _]]].
+  destruct (fill_res p nd (pd_txs pd) true 0%nat (pd_sh pd) F) as [t' [ok' [E _]]].
   rewrite E. destruct ok'; eauto.
 Qed.
 
 (** * buildPendList *)
-Lemma scan_not_fatal : forall nv p now timeout l, scan nv p now timeout l <> Fatal.
+Lemma scan_not_fatal : forall p now timeout l, scan p now timeout l <> Fatal.
 Proof.
   induction l as [|pd l IH]; simpl; [discriminate|].
   pose proof (build_not_fatal p pd) as H.
   destruct (build p pd) as [[[pd' b] e]| |]; [|discriminate|congruence].
-  destruct (nv && posted e); [discriminate|].
-  destruct (scan nv p now timeout l) as [[[k t] e']| |]; [|discriminate|congruence].
+  destruct (scan p now timeout l) as [[[k t] e']| |]; [|discriminate|congruence].
   destruct b; [discriminate|]. destruct (timeout <=? _); discriminate.
 Qed.
 
@@ -100,18 +79,17 @@ Qed.
 Definition shape_pred (Q : pend -> Prop) : Prop :=
   forall a b, pd_sh a = pd_sh b -> length (pd_txs a) = length (pd_txs b) -> Q b -> Q a.
 
-Lemma scan_keeps : forall (Q : pend -> Prop) nv p now timeout l keep tmo e,
+Lemma scan_keeps : forall (Q : pend -> Prop) p now timeout l keep tmo e,
   shape_pred Q ->
   Forall (fun pd => nil_in_range pd /\ Q pd) l ->
-  scan nv p now timeout l = Ok (keep, tmo, e) ->
+  scan p now timeout l = Ok (keep, tmo, e) ->
   Forall (fun pd => nil_in_range pd /\ Q pd) keep.
 Proof.
-  intros Q nv p now timeout l. induction l as [|pd l IH]; intros keep tmo e SQ F H; simpl in H.
+  intros Q p now timeout l. induction l as [|pd l IH]; intros keep tmo e SQ F H; simpl in H.
   - inversion H; subst. constructor.
   - inversion F as [|x y [R HQ] F']; subst.
     destruct (build p pd) as [[[pd' b] e0]| |] eqn:Eb; try discriminate.
-    destruct (nv && posted e0); [discriminate|].
-    destruct (scan nv p now timeout l) as [[[k t] e']| |] eqn:Es; try discriminate.
+    destruct (scan p now timeout l) as [[[k t] e']| |] eqn:Es; try discriminate.
     specialize (IH k t e' SQ F' eq_refl).
     apply build_shape in Eb as [S1 [S2 S3]].
     destruct b.
@@ -120,31 +98,13 @@ Proof.
       constructor; [|exact IH]. split; [apply S3; reflexivity|]. eapply SQ; eauto.
 Qed.
 
-(** the two panics an iteration of the pending loop can end in *)
-Lemma scan_panic_kind : forall nv p now timeout l w,
-  Forall nil_in_range l -> scan nv p now timeout l = Panic w ->
-  w = W_GROUP \/ (nv = true /\ w = W_NILVAL).
-Proof.
-  intros nv p now timeout l. induction l as [|pd l IH]; intros w F H; simpl in H; [discriminate|].
-  inversion F as [|x y R F']; subst.
-  destruct (build p pd) as [[[pd' b] e0]| |] eqn:Eb.
-  - destruct (nv && posted e0) eqn:En.
-    + inversion H; subst. right. apply andb_true_iff in En as [En _]. auto.
-    + destruct (scan nv p now timeout l) as [[[k t] e']| |] eqn:Es.
-      * destruct b; [discriminate|]. destruct (timeout <=? _); discriminate.
-      * inversion H; subst. eapply IH; eauto.
-      * discriminate.
-  - inversion H; subst. left. eapply build_panic_group; eauto.
-  - discriminate.
-Qed.
-
-Lemma scan_fits_ok : forall p now timeout l,
-  Forall (fun pd => nil_in_range pd /\ pd_fits p pd) l ->
-  exists keep tmo e, scan false p now timeout l = Ok (keep, tmo, e).
+(** an iteration over blocks whose nil slots all have a short hash completes *)
+Lemma scan_ok : forall p now timeout l,
+  Forall nil_in_range l -> exists keep tmo e, scan p now timeout l = Ok (keep, tmo, e).
 Proof.
   intros p now timeout l. induction l as [|pd l IH]; intros F; simpl; [eauto|].
-  inversion F as [|x y [R Fit] F']; subst.
-  destruct (build_fits_ok p pd R Fit) as [pd' [b [e Eb]]]. rewrite Eb.
+  inversion F as [|x y R F']; subst.
+  destruct (build_ok p pd R) as [pd' [b [e Eb]]]. rewrite Eb.
   destruct (IH F') as [k [t [e' Es]]]. rewrite Es.
   destruct b; [eauto|]. destruct (timeout <=? _); eauto.
 Qed.
@@ -164,6 +124,8 @@ Lemma add_lt_inv : forall (Q : pend -> Prop) c p now from pub lb st st' e,
   pend_inv Q st -> add_lt c p now from pub lb st = Ok (st', e) -> pend_inv Q st'.
 Proof.
   intros Q c p now from pub lb st st' e SQ New I H. unfold add_lt in H.
+  destruct ((lt_txcount lb <=? 0) || (Z.of_nat (length (lt_sh lb)) <? lt_txcount lb));
+    [inversion H; subst st'; exact I|].
   destruct (lt_hdr lb) as [h|] eqn:Eh; [|discriminate].
   unfold go_make in H.
   destruct ((h_txcount h <? 0) || (max_len <? h_txcount h)); [discriminate|].
